@@ -373,6 +373,11 @@ def parser_table(ctx, p):
     split_nl = False
     for o in lp["iter"]:
         root = o[0]
+        if root[0] == "param" and any(st == ("iter", "split") for st in o[1:]) and not any(st[0] == "truncate" for st in o[1:]):
+            # `for line in content.split('\n')`: the split iterator walked directly
+            for c in p.calls:
+                if c.path == "core::str::<impl str>::split" and c.args[1]["k"] == "const" and c.args[1].get("bits") == "10":
+                    split_nl = True
         if root[0] == "call" and erase_generics(root[3]) == "std::iter::Iterator::collect":
             cc = p.call_at[root[2]]
             for o2 in p.origins_of_operand(cc.args[0]):
